@@ -44,7 +44,15 @@ LEVEL_TEXT = ('Coq theorems over an executable Gallina model of src/registry.py 
               'save/reload round trips proved for all inputs on decidable domains with refuting witnesses outside them (finding C15.F23 remains; C15.F16, F22, F24, F25, F26, F27, F28, F29, F31 are repaired); the model is tied to '
               'the source by a regenerated class inventory + constant tables and by a differential run against the real registry/conf classes on every check.')
 LEVEL_NOTE = ('Trusted: Coq kernel, table extractor, extraction + OCaml driver, the Python harness; CPython primitives listed in trusted_base; '
-              'Python code is modelled not verified.')
+              'Python code is modelled not verified.  NOT MODELLED (direct oracle on the implementation only): the 31 value classes defined outside '
+              'src/registry.py and src/conf.py (src/log.py, src/callbacks.py, src/ircdb.py, plugins/*) -- they are in the regenerated inventory and in the '
+              'reject-atomic table, but their set/__str__ are not modelled class by class; Float family, Json, Regexp, Servers, Databases, Banmask, HttpProxy, '
+              'SocketTimeout; textwrap.wrap (chunks are an input).  NOT COVERED: user-specific values (conf.registerUserValue / userdata.conf; finding C15.F32 is '
+              'checked by one probe, the second loop of Group.setName is not modelled); what registry.close() swallows when the lazy reload of a hand-edited, '
+              'invalid value raises while saving (the harness only checks that nothing is swallowed for files the bot wrote); values written through the plugin '
+              'API under a non-channel name or for a network that is not connected are saved but invisible to reads (mirrored, not judged); rfc1459 case folding '
+              'of channel names ([]\\~ vs {}|^: the registry folds with str.lower only); the locale encoding of open() vs the UTF-8 writer for non-ASCII help '
+              'comments; Windows (os.linesep in wrapped values; finding C15.F33 is checked with os.name patched); reload histories are generated for scalar classes only.')
 TECHNIQUE = 'Coq proof (induction over strings / operation histories) + regenerated tables and class inventory + extracted-model differential correspondence'
 EXPLANATION = 'C15: registry save/reload, reject-atomic and specific-value model of src/registry.py; theorems in coq/C15/Props.v'
 
@@ -64,6 +72,10 @@ def mods():
         boot.boot()
         import supybot.registry as registry, supybot.conf as conf, supybot.utils as utils, supybot.world as world, supybot.ircutils as ircutils
         M.registry, M.conf, M.utils, M.world, M.ircutils = registry, conf, utils, world, ircutils
+        # registry.close() catches every non-I/O exception of value.serialize(), calls registry.exception() and goes on:
+        # the value line is silently left out.  Recorded here; every save in this harness checks that nothing was swallowed.
+        M.swallowed = []
+        registry.exception = lambda s_: M.swallowed.append(str(s_))
         M.inv = t15.inventory(strict=False)     # the strict shape check is gen_T15's (reported as a broken obligation)
         M.fn = os.path.join(boot.boot(), 'c15_scratch.conf')
 
@@ -73,7 +85,15 @@ def mods():
         class TemplatedT(registry.TemplatedString):
             requiredTemplates = ['text']
         M.extra = {'registry.OnlySomeStrings': OnlySomeT, 'registry.TemplatedString': TemplatedT}
+        _load_extra_classes(M)
     return M
+
+
+def take_swallowed():
+    m = mods()
+    out = list(m.swallowed)
+    del m.swallowed[:]
+    return out
 
 
 class keep_cache:
@@ -89,11 +109,42 @@ class keep_cache:
         r._lastModified = self.saved[1]
 
 
+def _load_extra_classes(m):
+    """the value classes defined outside src/registry.py and src/conf.py: import their modules (src/*.py, the plugins'
+    config.py / plugin.py) and take a default from an instance registered in the real configuration tree"""
+    import importlib, contextlib, io
+    import supybot.plugin as plugin
+    m.ext_cls, m.ext_default = {}, {}
+    for q, kind, *_ in m.inv:
+        mod, name = q.rsplit('.', 1)
+        if mod in ('registry', 'conf'):
+            continue
+        try:
+            if os.path.exists(os.path.join(boot.REPO, 'src', mod + '.py')):
+                obj = importlib.import_module('supybot.' + mod)
+            else:
+                pname = mod.split('.')[0]
+                with contextlib.redirect_stdout(io.StringIO()):
+                    pm = plugin.loadPluginModule(pname)
+                obj = getattr(pm, 'plugin' if mod.endswith('.plugin') else 'config')
+            m.ext_cls[q] = getattr(obj, name)
+        except Exception:
+            continue
+    insts = {}
+    for (n_, v_) in m.conf.supybot.getValues(getChildren=True):
+        insts.setdefault(type(v_), v_)
+    for q, c in m.ext_cls.items():
+        if c in insts:
+            m.ext_default[q] = insts[c]._default
+
+
 def cls_of(q):
     m = mods()
     if q in m.extra:
         return m.extra[q]
-    mod, name = q.split('.')
+    mod, name = q.rsplit('.', 1)
+    if mod not in ('registry', 'conf'):
+        return m.ext_cls[q]
     return getattr(m.registry if mod == 'registry' else m.conf, name)
 
 
@@ -116,6 +167,8 @@ def kind_of(q):
 def default_of(q):
     if q in DEFAULTS:
         return DEFAULTS[q]
+    if q in mods().ext_default:
+        return mods().ext_default[q]
     k = kind_of(q)
     return {'boolean': False, 'integer': 0, 'spacelist': [], 'commalist': []}.get(k, '')
 
@@ -242,7 +295,9 @@ def cls_comma_set(inp):
             and any(x != x.strip() for x in inp['value'][1]))
 
 
-CLASSES = {'comma_set_edge_blank': cls_comma_set}
+CLASSES = {'comma_set_edge_blank': cls_comma_set,
+           'windows_bool_not_atomic': lambda inp: inp.get('op') == 'winbool',
+           'user_value_not_reinstantiated': lambda inp: inp.get('op') == 'uservalue'}
 
 # witnesses of repaired defects (findings/C15.json "fixed"): run first on every check, nothing attributes them to a finding
 CORPUS_FIXED = [
@@ -396,7 +451,9 @@ def save_reload(q, var, setter, helptext=''):
         setter(inst)
         res['saved'] = canon(q, inst.value)
         res['name'] = inst._name
+        take_swallowed()
         r.close(root, m.fn)
+        res['swallowed'] = take_swallowed()
         with open(m.fn, newline='') as f:
             text = f.read()
         res['lines'] = [l for l in text.split('\n') if l.strip() and not l.startswith('#')]
@@ -479,7 +536,9 @@ def do_reload(ctx, inp):
             inst.set(inp['cur'])
         inst.set(inp['text'])
     res = save_reload(q, inp['var'], setter, inp.get('help', ''))
-    if res['load'][0] == 'raise':
+    if res.get('swallowed'):
+        ctx.fail(inp, 'registry.close() swallowed an exception while writing the value (the line is left out): %r' % res['swallowed'][:2])
+    elif res['load'][0] == 'raise':
         ctx.fail(inp, 'the saved file does not load: %s; lines %r' % (res['load'][1], res['lines']))
     elif res['reloaded'][0] == 'raise':
         ctx.fail(inp, 'the saved value is rejected on reload (%s); lines %r' % (res['reloaded'][1], res['lines']))
@@ -647,7 +706,11 @@ def run_tree(ctx, inp, mo):
                         want[k] = canon(q, base.getSpecific(network=net, channel=chan)())
                     except r.InvalidRegistryValue:
                         want[k] = 'raise'
+                take_swallowed()
                 r.close(root, m.fn)
+                sw = take_swallowed()
+                if sw:
+                    fails.append((len(inp['ops']), 'registry.close() swallowed an exception (a line is left out): %r' % sw[:2]))
                 try:
                     r.open_registry(m.fn, clear=True)
                     root2 = r.Group()
@@ -740,7 +803,10 @@ def real_generation(inp, g, prev_file, out_file):
             cur_file = prev_file
             for o in inp['gens'][g]:
                 if o[0] == 'save':
+                    take_swallowed()
                     r.close(root, out_file)
+                    if take_swallowed():
+                        raise RuntimeError('registry.close() swallowed an exception (a line is left out)')
                     cur_file = out_file
                     saves.append(file_lines(out_file))
                     continue
@@ -789,7 +855,10 @@ def real_generation(inp, g, prev_file, out_file):
                     net = a[1] if a[0] in ('n', 'nc') else None
                     chan = a[1] if a[0] == 'c' else (a[2] if a[0] == 'nc' else None)
                     reads.append(canon(q, base.getSpecific(network=net, channel=chan)()))
+            take_swallowed()
             r.close(root, out_file)
+            if take_swallowed():
+                raise RuntimeError('registry.close() swallowed an exception (a line is left out)')
             saves.append(file_lines(out_file))
             return ('ok', file_lines(out_file), reads, saves, root)
     except Exception as e:
@@ -1032,7 +1101,9 @@ def norm_case(var, text):
         out['name'] = inst._name
         out['s0'] = r.Value.serialize(inst)
         out['chunks'] = norm_chunks(inst)
+        take_swallowed()
         r.close(root, m.fn)
+        out['swallowed'] = take_swallowed()
         with open(m.fn, newline='') as f:
             raw = f.read()
         out['text'] = ''.join(l + '\n' for l in raw.split('\n') if l.strip() and not l.startswith('#'))
@@ -1081,8 +1152,10 @@ def check_norm(ctx, var, text, mo):
             ctx.disagree(inp, mset, res['set'], 'NormalizedString.set')
     if res['set'][0] != 'ok':
         return
-    # direct oracle: the file loads, and loads the value that was saved
-    if res['load'][0] == 'raise':
+    # direct oracle: nothing swallowed while saving; the file loads, and loads the value that was saved
+    if res.get('swallowed'):
+        ctx.fail(inp, 'registry.close() swallowed an exception while writing the value (the line is left out): %r' % res['swallowed'][:2])
+    elif res['load'][0] == 'raise':
         ctx.fail(inp, 'the saved file does not load: %s; lines %r' % (res['load'][1], res['text']))
     elif res['reloaded'][0] == 'raise':
         ctx.fail(inp, 'the saved value is rejected on reload (%s); lines %r' % (res['reloaded'][1], res['text']))
@@ -1378,7 +1451,10 @@ def run_api(ctx, inp, mo):
                 except r.InvalidRegistryValue:
                     outs.append(('raise', 'InvalidRegistryValue'))
             # the saved file names exactly the nodes written
+            take_swallowed()
             r.close(base, m.fn)
+            if take_swallowed() and not fails:
+                fails.append('registry.close() swallowed an exception (a line is left out)')
             names = sorted(l.split(': ', 1)[0] for l in file_lines(m.fn))
             want_names = sorted(r.join(['supybot', 'plugins', API_PLUGIN, var] + ([] if k == ('g',) else ([k[1]] if k[0] == 'c' else ([':' + k[1]] if k[0] == 'n' else [':' + k[1], k[2]]))))
                                 for k in spec if k != ('g',))
@@ -1442,6 +1518,65 @@ CORPUS_API = [
 
 
 
+# ---------------------------------------------------------------- two probes outside the generated streams
+def check_winbool(ctx, replaying=False):
+    """log.BooleanRequiredFalseOnWindows (supybot.log.stdout.colorized): on Windows `True` is rejected -- after it was stored"""
+    import os as _os
+    m = mods()
+    inp = {'op': 'winbool', 'text': 'True'}
+    ctx.case('windows-only', inp)
+    c = m.ext_cls.get('log.BooleanRequiredFalseOnWindows')
+    if c is None:
+        return
+    inst = c(False, '')
+    saved = _os.name
+    try:
+        _os.name = 'nt'
+        try:
+            inst.set('True')
+            rejected = False
+        except m.registry.InvalidRegistryValue:
+            rejected = True
+    finally:
+        _os.name = saved
+    if rejected and inst.value is not False:
+        ctx.fail(inp, 'with os.name == "nt": set("True") is rejected but the value is now %r' % (inst.value,))
+
+
+def check_uservalue(ctx):
+    """a user-specific value (PluginMixin.setUserValue -> userdata.conf) across a restart and an untouched save"""
+    m = mods()
+    r, conf = m.registry, m.conf
+    inp = {'op': 'uservalue', 'id': '42', 'value': 'hello user 42'}
+    ctx.case('user-value', inp)
+    with keep_cache():
+        r._cache.data.clear()
+
+        def build():
+            pg = conf.registerGroup(conf.users.plugins, 'VerifC15U')
+            v = r.String('dflt', '')
+            conf.registerUserValue(pg, 'greeting', v)
+            return v
+        try:
+            v = build()
+            v.get(inp['id']).setValue(inp['value'])          # what setUserValue does
+            r.close(conf.users, m.fn)
+            first = [l for l in file_lines(m.fn) if 'VerifC15U' in l]
+            conf.users.plugins.unregister('VerifC15U')
+            r.open_registry(m.fn, clear=True)
+            build()
+            r.close(conf.users, m.fn)                        # the next flush; nobody read the value
+            second = [l for l in file_lines(m.fn) if 'VerifC15U' in l]
+        finally:
+            try:
+                conf.users.plugins.unregister('VerifC15U')
+            except Exception:
+                pass
+    if second != first:
+        ctx.fail(inp, 'after a restart and a save without a read the user value is gone: saved %r, then %r' % (first, second))
+
+
+
 # ---------------------------------------------------------------- generators
 def gstr(rng, maxlen=8, alpha=None):
     alpha = alpha or (ALPHA + EXTRA)
@@ -1464,6 +1599,8 @@ def gtext_for(rng, q):
                 'nick', 'ni[ck]', '#chan', '#chan,key', '#a,b,c', 'a!b@c', '*!*@*', 'h:1', 'h:x', '1.2.3.4', '::1', '@!', '@a', '$text', '${text} x', '$textx',
                 'plain', 'PLAIN', 'external', '[]', '<>', '(', 'default', 'Socket', 'socket', 'Foo', 'foo', 'bar', 'BAR', 'a b', 'nick%s', '%s', '"`\'', '`',
                 '1.5', '-2', 'nan', 'inf', '1e400', '0.5', '{"a": 1}', '[1, 2]', 'null', '{', 'm/a/', '/a/i', 'm/(/', '/', 'http://x', 'en-US', 'h:80',
+                'DEBUG', 'info', 'Critical', '10', '5', 'simple', 'nastyCharacters', 'active', 'moderate', 'off', 'newestFirst', 'asInFeed', ':) :(', 'owner -admin',
+                '-owner', '$topic ($nick)', '$value', '$key could be $value', '--help', '-a', 'a--b', 'en', 'fr', 'tiny', 'x0', 'ur1',
                 'conf', '/tmp/x', 'anydbm cdb', 'sqlite3', 'irc.example.org:6697', '[::1]:6667', 'host', 'exact', 'Exact nick', 'bogus']
         return rng.choice(pool)
     if k == 'spacelist':
@@ -1549,10 +1686,13 @@ CORPUS_FILES = ['a: b\\\n  #c\\\n  d\ne: f\n', ' #x\na: b\n', 'a: b\\\n\t# c\nd:
 
 # ---------------------------------------------------------------- run / replay
 def run(ctx):
-    import socket
+    import socket, contextlib, io
     old = socket.getdefaulttimeout()
     try:
-        _run(ctx)
+        with contextlib.redirect_stdout(io.StringIO()):       # ircdb.DefaultCapabilities.setValue print()s a warning
+            _run(ctx)
+            check_winbool(ctx)
+            check_uservalue(ctx)
     finally:
         socket.setdefaulttimeout(old)
 
@@ -1624,7 +1764,10 @@ def _run(ctx):
     for q, kind, *_ in m.inv:
         if kind == 'abstract':
             continue
-        per = ctx.n(60 if kind.startswith('oracle') else 110)
+        ext = q.rsplit('.', 1)[0] not in ('registry', 'conf')
+        if ext and (q not in m.ext_cls or q not in m.ext_default):
+            continue                      # no instance registered anywhere: nothing the bot can save (e.g. an abstract base)
+        per = ctx.n(40 if ext else (60 if kind.startswith('oracle') else 110))
         for i in range(per):
             text = gtext_for(rng, q)
             cur = gtext_for(rng, q) if rng.random() < 0.25 else None
@@ -1765,6 +1908,10 @@ def replay(ctx, inp):
         do_reload(sub, inp)
     elif op == 'tree':
         check_tree(sub, inp, None)
+    elif op == 'winbool':
+        check_winbool(sub)
+    elif op == 'uservalue':
+        check_uservalue(sub)
     elif op == 'api':
         check_api(sub, inp, None)
     elif op == 'tgens':
